@@ -10,7 +10,7 @@
 (***************************************************************************)
 EXTENDS Integers, Sequences, FiniteSets, TLC, Json
 
-CONSTANTS Tokens, MaxLen, Comps
+CONSTANTS Tokens, MaxLen, Comps, Pool
 
 Digits == {"0", "1", "2", "3", "4", "5", "6", "7", "8", "9"}
 IsNum(p) == Len(p) > 0 /\ \A i \in 1..Len(p) : p[i] \in Digits
@@ -66,7 +66,13 @@ VerLT(a, b, i) == IF i > 4 THEN FALSE
 (***************************************************************************)
 VARIABLES ph, s, a, b
 Versions == {<<w, x, y, z>> : w \in Comps, x \in Comps, y \in {<<"0">>, <<"1">>}, z \in {<<"0">>, <<"7">>}}
+\* phase "comp": strings built from whole components of a pool (long zero-padded numbers, boundary values,
+\* malformed parts) - lengths the character enumeration cannot reach
+RECURSIVE JoinDots(_)
+JoinDots(cs) == IF Len(cs) = 1 THEN cs[1] ELSE cs[1] \o <<".">> \o JoinDots(Tail(cs))
+CompStrings == UNION {[1..k -> Pool] : k \in 1..4} \cup {[i \in 1..5 |-> <<"1">>]}
 Init == \/ (ph = "str" /\ s = <<>> /\ a = <<>> /\ b = <<>>)
+        \/ (ph = "comp" /\ \E cs \in CompStrings : s = JoinDots(cs) /\ a = <<>> /\ b = <<>>)
         \/ (ph = "cmp" /\ s = <<>> /\ a \in Versions /\ b \in Versions)
 Next == /\ ph = "str" /\ Len(s) < MaxLen
         /\ \E t \in Tokens : s' = Append(s, t)
@@ -75,7 +81,7 @@ Spec == Init /\ [][Next]_<<ph, s, a, b>>
 
 \* laws of the model itself
 Laws ==
-  /\ ph = "str" =>
+  /\ ph \in {"str", "comp"} =>
        LET r == Parse(s) IN
        r.v = "ok" =>
          /\ Parse(PrintSeq(r.c)) = r                         \* parse(print v) = v, canonical four-part form
@@ -86,7 +92,7 @@ Laws ==
        /\ (a[1] = <<"9">> /\ b[1] = <<"1", "0">>) => VerLT(a, b, 1)          \* numeric, not lexicographic
 
 Emit ==
-  IF ph = "str"
+  IF ph \in {"str", "comp"}
     THEN LET r == Parse(s) IN
          PrintT("VEC " \o ToJson([s |-> Str(s), v |-> r.v, p |-> IF r.v = "ok" THEN Show(r.c) ELSE "", np |-> Len(Parts(s))]))
     ELSE PrintT("CMP " \o ToJson([a |-> Show(a), b |-> Show(b), lt |-> VerLT(a, b, 1), eq |-> a = b]))
